@@ -565,6 +565,7 @@ const preludeInt = `
 (declare-fun sat (Str Int) Int)
 (declare-fun scat (Str Str) Str)
 (declare-fun ssub (Str Int Int) Str)
+(declare-fun s_lt (Str Str) Bool)
 (declare-fun emb (Int Int) Int)
 (declare-fun embbase (Int) Int)
 (declare-fun embidx (Int) Int)
@@ -598,6 +599,9 @@ var preludeAxioms = [][2]string{
 	{"ssub-len", "(forall ((s Str) (i Int) (j Int)) (! (=> (and (<= 0 i) (<= i j) (<= j (slen s))) (= (slen (ssub s i j)) (- j i))) :pattern ((ssub s i j))))"},
 	{"ssub-at", "(forall ((s Str) (i Int) (j Int) (k Int)) (! (=> (and (<= 0 i) (<= i j) (<= j (slen s)) (<= 0 k) (< k (- j i))) (= (sat (ssub s i j) k) (sat s (+ i k)))) :pattern ((sat (ssub s i j) k))))"},
 	{"sat-byte", "(forall ((s Str) (i Int)) (! (and (<= 0 (sat s i)) (< (sat s i) 256)) :pattern ((sat s i))))"},
+	{"s-lt-irrefl", "(forall ((a Str)) (! (not (s_lt a a)) :pattern ((s_lt a a))))"},
+	{"s-lt-trans", "(forall ((a Str) (b Str) (c Str)) (! (=> (and (s_lt a b) (s_lt b c)) (s_lt a c)) :pattern ((s_lt a b) (s_lt b c))))"},
+	{"s-lt-total", "(forall ((a Str) (b Str)) (! (or (s_lt a b) (= a b) (s_lt b a)) :pattern ((s_lt a b))))"},
 	{"emb-inj", "(forall ((r Int) (k Int)) (! (and (< (emb r k) 0) (= (embbase (emb r k)) r) (= (embidx (emb r k)) k)) :pattern ((emb r k))))"},
 	{"box-str", "(forall ((s Str)) (! (= (unbox_Str (box_Str s)) s) :pattern ((box_Str s))))"},
 	{"box-f", "(forall ((s F)) (! (= (unbox_F (box_F s)) s) :pattern ((box_F s))))"},
@@ -666,4 +670,8 @@ const preludeBV = `
 (declare-fun sat (Str Int) Int)
 (declare-datatypes ((Slice 0)) (((mk_slice (sl_ref Int) (sl_off Int) (sl_len Int) (sl_cap Int)))))
 (declare-datatypes ((Iface 0)) (((mk_iface (if_tag Int) (if_val Int)))))
+(declare-fun s_lt (Str Str) Bool)
+(assert (forall ((a Str)) (! (not (s_lt a a)) :pattern ((s_lt a a)))))
+(assert (forall ((a Str) (b Str) (c Str)) (! (=> (and (s_lt a b) (s_lt b c)) (s_lt a c)) :pattern ((s_lt a b) (s_lt b c)))))
+(assert (forall ((a Str) (b Str)) (! (or (s_lt a b) (= a b) (s_lt b a)) :pattern ((s_lt a b)))))
 `
